@@ -118,6 +118,51 @@ pub fn drive(args: &HashMap<String, String>) {
             }
         }
     }
+    if profile == "ladder" {
+        // ScopeLadder: every binder that re-binds an enclosing name (let, let*, lambda parameter) in every expression
+        // position (argument / &rest tail of a function and of an inline function, binding, branch and condition of
+        // an if, body of a function whose parameter has that name, lambda body, list element): renaming has to reach
+        // each of them
+        use crate::ast::{Expr, Helper, Pat};
+        let v = |n: &str| Expr::Var(n.to_string());
+        let plus1 = |e: Expr| Expr::Prim(16, vec![e, Expr::Lit(V::int(1))]);
+        let body = || Expr::Prim(4, vec![v("X"), v("Y")]);
+        let binders: Vec<Expr> = vec![
+            Expr::Let(false, vec![("X".to_string(), plus1(v("X")))], Box::new(body())),
+            Expr::Let(true, vec![("X".to_string(), plus1(v("X"))), ("X".to_string(), plus1(v("X")))], Box::new(body())),
+            Expr::Apply(Box::new(Expr::Lambda(vec!["Y".to_string()], Pat::list(vec![Pat::Var("X".to_string())], Pat::Nil), Box::new(body()))),
+                Box::new(Expr::List(vec![plus1(v("X"))]))),
+            Expr::Let(false, vec![("X".to_string(), plus1(v("X")))], Box::new(Expr::Let(false, vec![("X".to_string(), plus1(v("X")))], Box::new(body())))),
+        ];
+        let fpat = Pat::list(vec![Pat::Var("A".to_string())], Pat::Var("R".to_string()));
+        let helpers = vec![
+            Helper::Defun { name: "fun1".to_string(), pat: fpat.clone(), body: Expr::Prim(4, vec![v("A"), v("R")]), inline: false },
+            Helper::Defun { name: "inl2".to_string(), pat: fpat.clone(), body: Expr::Prim(4, vec![v("A"), v("R")]), inline: true },
+        ];
+        let args = Pat::list(vec![Pat::Var("X".to_string()), Pat::Var("Y".to_string())], Pat::Nil);
+        let envs = vec![V::list(&[V::int(500), V::int(700)]), V::list(&[V::int(-3), V::list(&[V::int(1), V::int(2)])])];
+        for e in binders {
+            let contexts: Vec<(Vec<Helper>, Expr)> = vec![
+                (vec![], e.clone()),
+                (helpers.clone(), Expr::Call("fun1".to_string(), vec![e.clone(), v("Y")], None)),
+                (helpers.clone(), Expr::Call("fun1".to_string(), vec![v("Y")], Some(Box::new(e.clone())))),
+                (helpers.clone(), Expr::Call("inl2".to_string(), vec![e.clone(), v("Y")], None)),
+                (helpers.clone(), Expr::Call("inl2".to_string(), vec![v("Y")], Some(Box::new(e.clone())))),
+                (vec![], Expr::Let(false, vec![("Z".to_string(), e.clone())], Box::new(Expr::Prim(4, vec![v("Z"), v("X")])))),
+                (vec![], Expr::If(Box::new(v("Y")), Box::new(e.clone()), Box::new(v("X")))),
+                (vec![], Expr::If(Box::new(e.clone()), Box::new(v("X")), Box::new(v("Y")))),
+                (vec![Helper::Defun { name: "fun3".to_string(), pat: Pat::list(vec![Pat::Var("X".to_string()), Pat::Var("Y".to_string())], Pat::Nil), body: e.clone(), inline: false }],
+                    Expr::Call("fun3".to_string(), vec![v("Y"), v("X")], None)),
+                (vec![Helper::Defun { name: "inl4".to_string(), pat: Pat::list(vec![Pat::Var("X".to_string()), Pat::Var("Y".to_string())], Pat::Nil), body: e.clone(), inline: true }],
+                    Expr::Call("inl4".to_string(), vec![v("Y"), v("X")], None)),
+                (vec![], Expr::Apply(Box::new(Expr::Lambda(vec!["X".to_string(), "Y".to_string()], Pat::list(vec![Pat::Var("Q".to_string())], Pat::Nil), Box::new(e.clone()))), Box::new(Expr::List(vec![v("Y")])))),
+                (vec![], Expr::List(vec![v("X"), e.clone(), v("X")])),
+            ];
+            for (hs, b) in contexts {
+                progs.push((Program { args: args.clone(), helpers: hs, body: b }, envs.clone()));
+            }
+        }
+    }
     for i in 0..(if profile == "ladder" { 0 } else { n }) {
         // alternate small / full programs
         g.o = if i % 3 == 0 { let mut o = gen_opts(profile); o.depth = 2; o.max_helpers = 2; o } else { gen_opts(profile) };
